@@ -159,9 +159,94 @@ fn log2_orbit_levels(f: u32) -> std::sync::Arc<Vec<Vec<Big>>> {
     v
 }
 
+/// The mathematical constants a fixed-point library names (e, pi and its fractions, logarithms of 2 / e / 10, square
+/// roots), as 320-bit values. Operand class: each of them at the resolution of the module's own I9F23 constants (23
+/// fraction bits, low bits zero in a finer type) and at the type's full resolution, truncated or rounded, -+ 1 ulp,
+/// either sign. A shortcut keyed on "the operand is the constant X" is reached only by feeding X.
+fn named_constants() -> &'static Vec<Mp> {
+    use std::sync::OnceLock;
+    static C: OnceLock<Vec<Mp>> = OnceLock::new();
+    C.get_or_init(|| {
+        let pi = pi_mp();
+        let one = mp::one();
+        let e = mp::exp(&one);
+        let ln2 = mp::ln2();
+        let ln10 = mp::ln_of(&Big::from_u64(10), 0);
+        let sqrt = |n: u64| -> Mp { isqrt(&Big::from_u64(n).shl(2 * P)) };
+        let mut v = vec![
+            e.clone(),
+            pi.clone(),
+            pi.shl(1),
+            pi.shr_floor(1),
+            pi.shr_floor(2),
+            pi.shr_floor(3),
+            pi.divrem_small(3).0,
+            pi.divrem_small(6).0,
+            mp::div(&one, &pi),
+            mp::div(&one.shl(1), &pi),
+            mp::div(&one, &pi.shl(1)),
+            ln2.clone(),
+            ln10.clone(),
+            mp::div(&one, &ln2),   // log2 e
+            mp::div(&ln10, &ln2),  // log2 10
+            mp::div(&ln2, &ln10),  // log10 2
+            mp::div(&one, &ln10),  // log10 e
+            sqrt(2),
+            mp::div(&one, &sqrt(2)),
+            sqrt(3),
+            mp::div(&one.shl(1), &sqrt(3)),
+            mp::div(&one.shl(1), &isqrt(&pi.shl(P))), // 2 / sqrt(pi)
+            mp::div(&one, &e),
+            mp::mul(&e, &e),
+            sqrt(5).add(&one).shr_floor(1), // golden ratio
+        ];
+        v.push(mp::exp(&e));
+        v
+    })
+}
+
+fn named_constant_operand(sl: L, r: u128) -> u128 {
+    let cs = named_constants();
+    let c = &cs[(r % cs.len() as u128) as usize];
+    let r = r >> 8;
+    let bits = match r % 4 {
+        0 => 23.min(sl.f),
+        1 => sl.f,
+        2 => sl.f,
+        _ => [16u32, 32, 48, 64, 31, 55, 23, 24][((r >> 8) % 8) as usize].min(sl.f),
+    };
+    // value at `bits` fraction bits (truncated, or rounded to nearest for variant 2), then widened to the type
+    let mut v = c.shr_floor(P - bits);
+    if r % 4 == 2 && c.shr_floor(P - bits - 1).is_odd() {
+        v = v.add_i64(1);
+    }
+    let v = v.shl(sl.f - bits).add_i64(if (r >> 6) & 3 == 3 { ((r >> 4) % 3) as i64 - 1 } else { 0 });
+    let v = if (r >> 12) & 7 == 7 && sl.signed { v.neg() } else { v };
+    sl.clamp(&v)
+}
+
 /// operands for function `op` on pair (sl -> dl)
 #[allow(clippy::too_many_arguments)]
 fn operands(prop: &str, op: u16, sl: L, dl: L, mode: usize, ia: Ing, ib: Ing, r1: u128, r2: u128) -> (u128, u128) {
+    let (a, b) = operands_inner(prop, op, sl, dl, mode, ia, ib, r1, r2);
+    // one case in 24: a named constant as the operand (for pow: base, exponent, or both)
+    let h = (r1 ^ r2.rotate_left(61)).wrapping_mul(0x9E37_79B9_7F4A_7C15_F39C_C060_5CED_C835) >> 64;
+    // (powi takes its constants inside, before the exponent is capped by the base's magnitude)
+    if h % 24 != 0 || op == POWI || (prop == "C17" && matches!(op, SIN | COS | TAN) && (h >> 8) & 1 == 0) {
+        return (a, b);
+    }
+    match op {
+        POW => match (h >> 16) % 3 {
+            0 => (named_constant_operand(sl, h >> 20), b),
+            1 => (a, named_constant_operand(sl, h >> 20)),
+            _ => (named_constant_operand(sl, h >> 20), named_constant_operand(sl, h >> 40)),
+        },
+        _ => (named_constant_operand(sl, h >> 20), b),
+    }
+}
+
+#[allow(clippy::too_many_arguments)]
+fn operands_inner(prop: &str, op: u16, sl: L, dl: L, mode: usize, ia: Ing, ib: Ing, r1: u128, r2: u128) -> (u128, u128) {
     let one = 1u128 << sl.f;
     let small = |r: u128| -> i64 { (r % 9) as i64 - 4 };
     let wrap_add = |base: u128, d: i64| -> u128 { sl.wrap(&sl.val(base).add_i64(d)) };
@@ -362,6 +447,8 @@ fn operands(prop: &str, op: u16, sl: L, dl: L, mode: usize, ia: Ing, ib: Ing, r1
                 2 => wrap_add(one, small(r1) << ((r1 >> 8) % (sl.f as u128).max(1)).min(60)),
                 _ => [0, one, one.wrapping_neg() & sl.mask(), one * 2 & sl.mask(), one / 2, 1, sl.mask(), sl.raw_max(), sl.raw_min(), one + 1, one - 1][(r1 % 11) as usize],
             };
+            let h = (r1 ^ r2.rotate_left(61)).wrapping_mul(0x9E37_79B9_7F4A_7C15_F39C_C060_5CED_C835) >> 64;
+            let a = if h % 24 == 0 { named_constant_operand(sl, h >> 20) } else { a };
             let av = sl.val(a).abs();
             // |x| <= 1 (roughly): the loop cannot leave early by overflow, so cap |n| to bound the work
             let near_unit = av <= Big::from_u128(one).add(&Big::from_u128(one >> 8));
@@ -520,9 +607,9 @@ impl Engine for Math {
             ("C17", Tier::Thorough) => Budget { random: 400_000_000, per_stratum: 1_000_000, strata },
             ("C16", Tier::Quick) => Budget { random: 2_000_000, per_stratum: 20_000, strata: pairs_for(SIN) },
             ("C16", Tier::Thorough) => Budget { random: 60_000_000, per_stratum: 600_000, strata: pairs_for(SIN) },
-            ("C15", Tier::Quick) => Budget { random: 120_000, per_stratum: 300, strata },
+            ("C15", Tier::Quick) => Budget { random: 1_500_000, per_stratum: 4_000, strata },
             (_, Tier::Quick) => Budget { random: 1_500_000, per_stratum: 20_000, strata },
-            ("C15", Tier::Thorough) => Budget { random: 15_000_000, per_stratum: 30_000, strata },
+            ("C15", Tier::Thorough) => Budget { random: 150_000_000, per_stratum: 300_000, strata },
             (_, Tier::Thorough) => Budget { random: 150_000_000, per_stratum: 1_000_000, strata },
         }
     }
@@ -556,7 +643,7 @@ impl Engine for Math {
             "C13" => format!("cases = sqrt over {}; x log-uniform, perfect squares +-1 ulp, near 1, smallest invertible, extremes. Oracle: exact integer bracket (r-4)^2 <= X*2^F <= (r+4)^2, r >= 0, sqrt(0)=0, sqrt(1)=1; Err only for x < 0 or unrepresentable reciprocal. Non-trivial: x not in {{0, 1}}.", types),
             "C14" => format!("cases = log2/ln over {}; x log-uniform, powers of two +-ulps, near 1, smallest invertible. Oracle: 320-bit log2/ln (atanh series; self-tested against embedded 60-digit constants and identities): |r - log2 x| <= 8 ulp, exact on powers of two, sign rule, |r - ln x| <= 2^-23 |ln x| + 8 ulp; Err only for x <= 0 or unrepresentable reciprocal. Non-trivial: x != 1.", types),
             "C15" => format!("cases = exp/pow/powi over {}; exp operands uniform in x and in e^x up to the overflow threshold; pow bases log-uniform with exponents within the threshold, small integers and halves; powi as in C12. Oracle: 320-bit exp and exp(y ln x); exact rational X^n (big integers) or 320-bit for powi; bounds as stated in the property; n < 0 metamorphic: powi(x,n) == 1.checked_div(powi(x,|n|)); conventions 0^y=0, x^0=1, x^1=x exact. Non-trivial: Ok result other than the conventions.", types),
-            "C16" => "cases = sin/cos/tan over the 131 same-type signed pairs (every signed layout of the scope); angles uniform in |x| <= 200 (tan 100), multiples of pi/4 +- ulps, tiny angles, near the limit; I9F23 angles enumerated (every pattern in the thorough tier, every 1024th in quick). Oracle: f64 libm on the operand rounded to f64 (|x| <= 200 => argument error <= 2^-45, libm <= 1 ulp) with 2^-36 added to every bound: |sin - s|, |cos - c| <= 2^-16, range [-1-2^-16, 1+2^-16], |tan - t| <= 2^-14 (1+t^2) where |t| <= 64 (2^-30 guard band, cases inside skipped). Non-trivial: |x| > 2 or within 2^-10 of a quadrant boundary.".into(),
+            "C16" => "cases = sin/cos/tan over the 131 same-type signed pairs (every signed layout of the scope); angles uniform in |x| <= 200 (tan 100), multiples of pi/4 +- ulps, tiny angles, near the limit; I9F23 angles enumerated (every pattern in the thorough tier, every 1024th in quick). Oracle: f64 libm on the operand rounded to f64 (|x| <= 200 => argument error <= 2^-45, libm <= 1 ulp) with 2^-44 (times 1+t^2 for tan) added to every bound; targeted search: hill climbing on error/bound from the best-scoring generated angles: |sin - s|, |cos - c| <= 2^-16, range [-1-2^-16, 1+2^-16], |tan - t| <= 2^-14 (1+t^2) where |t| <= 64 (2^-30 guard band, cases inside skipped). Non-trivial: |x| > 2 or within 2^-10 of a quadrant boundary.".into(),
             "C17" => format!("cases = every function except powi over {}, operands weighted to the largest and smallest magnitudes; oracle: hook loop counter with hard limit 4*width+64 (the marker panic is the violation, so an unbounded loop costs 4*width+65 iterations to detect). Non-trivial: operand magnitude >= 2^8 or <= 2^-8.", types),
             _ => String::new(),
         }
@@ -564,7 +651,7 @@ impl Engine for Math {
     fn assumptions(&self, prop: &str) -> Vec<String> {
         let mut v = vec!["source/destination pairs are a fixed list of 24 (compile-time type parameters)".to_string()];
         match prop {
-            "C16" => v.push("f64 libm oracle with a 2^-36 margin added to every bound".into()),
+            "C16" => v.push("f64 libm oracle with a 2^-44 margin (times 1 + tan^2 for tan) added to every bound".into()),
             "C17" | "C12" => v.push("loop iterations counted by the cfg(substrate_fixed_verif) hook in every loop body of src/transcendental.rs".into()),
             _ => v.push("320-bit fixed-point log/exp oracle of the harness (error < 2^-300, self-tested)".into()),
         }
@@ -755,6 +842,10 @@ impl Engine for Math {
                         let lo_ok = rr <= four || (&rr - &four).pow(2) <= nn;
                         let hi_ok = nn <= (&rr + &four).pow(2);
                         let exact_ok = if xs.is_zero() { rr.is_zero() } else if xd == Big::pow2(dl.f) { rr == Big::pow2(dl.f) } else { true };
+                        if rr.is_pos() {
+                            // |r - sqrt N| ~ |r^2 - N| / 2r, in units of the 4 ulp allowed
+                            ev.score = (&rr.mul(&rr) - &nn).abs().to_f64_approx() / (2.0 * rr.to_f64_approx()) / 4.0;
+                        }
                         if xs.is_neg() || rr.is_neg() || !lo_ok || !hi_ok || !exact_ok {
                             fail(&mut ev, "result", &res, format!("Ok(r) with |r - sqrt(x)| <= 4 ulp (r ~ {:.6e} for x ~ {:.6e})", (sl.approx(a)).max(0.0).sqrt(), sl.approx(a)));
                         }
@@ -798,6 +889,7 @@ impl Engine for Math {
                         let one = Big::pow2(dl.f);
                         let sign_ok = if op == LOG2 { (xd > one || !rr.is_pos()) && (xd < one || !rr.is_neg()) } else { true };
                         let exact_ok = if op == LOG2 && pow2 { rr == Big::from_i64(xs.bits() as i64 - 1 - sl.f as i64).shl(dl.f) } else { true };
+                        ev.score = mp::to_f64(&got.sub(&truth).abs()) / mp::to_f64(&tol);
                         if !mp::within(&got, &truth, &tol) || !sign_ok || !exact_ok {
                             fail(&mut ev, "result", &res, format!("{} = {:.12e} within the stated bound{} (got {:.12e})", OP_NAMES[op as usize], mp::to_f64(&truth), if pow2 && op == LOG2 { ", exact on powers of two" } else { "" }, mp::to_f64(&got)));
                         }
@@ -818,10 +910,17 @@ impl Engine for Math {
                 }
                 if let Some(r) = rv {
                     let x = mp::from_scaled(&xs, sl.f);
-                    let truth = mp::exp(&x);
-                    let tol = tol_ulps(dl, 64).add(&truth.shr_floor(20));
                     let got = r_mp(dl, r);
                     ev.nontrivial = !xs.is_zero();
+                    if x > mp::from_i64(4096) {
+                        // e^x is beyond every type of the scope by thousands of binary orders: no Ok is within 2^-20 of it
+                        fail(&mut ev, "result", &res, format!("Err: e^x for x = {:.6e} is not representable (got {:.12e})", mp::to_f64(&x), mp::to_f64(&got)));
+                        ev.class(OP_NAMES[op as usize]);
+                        return ev;
+                    }
+                    let truth = mp::exp(&x);
+                    let tol = tol_ulps(dl, 64).add(&truth.shr_floor(20));
+                    ev.score = mp::to_f64(&got.sub(&truth).abs()) / mp::to_f64(&tol);
                     if !mp::within(&got, &truth, &tol) {
                         fail(&mut ev, "result", &res, format!("e^x = {:.12e} within 2^-20 e^x + 64 ulp (got {:.12e})", mp::to_f64(&truth), mp::to_f64(&got)));
                     }
@@ -851,16 +950,32 @@ impl Engine for Math {
                         let y = mp::from_scaled(&e, sl.f);
                         let l = mp::ln_of(&xs, -(sl.f as i64));
                         let yl = mp::mul(&y, &l);
-                        let truth = mp::exp(&yl);
                         // relative 2^-18 + |y ln x| 2^-22 + 16 |y| 2^-F, plus 64 ulp
                         let rel = pow_rel_bound(dl, &y, &yl);
-                        let tol = mp::mul(&rel, &truth).add(&tol_ulps(dl, 64));
                         ev.nontrivial = true;
                         if mag_bits > 4 {
                             ev.class("x>8");
                         }
-                        if !mp::within(&got, &truth, &tol) {
-                            fail(&mut ev, "result", &res, format!("x^y = {:.12e} within the propagated bound (got {:.12e})", mp::to_f64(&truth), mp::to_f64(&got)));
+                        let far = mp::from_i64(4096); // e^4096 is beyond every type of the scope (max < 2^128 < e^89)
+                        if yl > far {
+                            // the true power is astronomically large (it is not formed: it would have |y ln x| / ln 2 bits).
+                            // With rel >= 1 the stated bound reaches down to zero or below and admits every result of the type;
+                            // with rel < 1 its lower end truth (1 - rel) >= truth 2^-320 is beyond the type, so no Ok is within it.
+                            ev.class("pow-true-result-astronomical");
+                            let got_ok = rel >= mp::one();
+                            if !got_ok {
+                                fail(&mut ev, "result", &res, format!("x^y = e^({:.6e}) within the propagated bound (got {:.12e})", mp::to_f64(&yl), mp::to_f64(&got)));
+                            }
+                        } else {
+                            let truth = if yl < far.neg() { Big::zero() } else { mp::exp(&yl) };
+                            let tol = mp::mul(&rel, &truth).add(&tol_ulps(dl, 64));
+                            if rel < mp::one().shr_floor(2) {
+                                // (scored only where the bound says something: with rel near 1 it admits almost anything)
+                                ev.score = mp::to_f64(&got.sub(&truth).abs()) / mp::to_f64(&tol);
+                            }
+                            if !mp::within(&got, &truth, &tol) {
+                                fail(&mut ev, "result", &res, format!("x^y = {:.12e} within the propagated bound (got {:.12e})", mp::to_f64(&truth), mp::to_f64(&got)));
+                            }
                         }
                     }
                 }
@@ -893,7 +1008,8 @@ impl Engine for Math {
                         let nn = n as u32;
                         let exact_bits = (xd.bits() as u64) * nn as u64;
                         // bound: (n+1) * max(1,|x|)^(n-1) ulp
-                        if exact_bits < 40_000 {
+                        // (exact big-integer comparison while the numbers stay small; the 320-bit oracle otherwise)
+                        if exact_bits < 40_000 && (dl.f as u64) * (nn as u64) < 80_000 {
                             // |rr * 2^(F(n-1)) - X^n| <= (n+1) * max(2^F, |X|)^(n-1)
                             let lhs = (&rr.shl(dl.f * (nn - 1)) - &xd.pow(nn)).abs();
                             let m = Big::max(&one_d, &xd.abs());
@@ -904,6 +1020,15 @@ impl Engine for Math {
                         } else {
                             let l = mp::ln_of(&xd.abs(), -(dl.f as i64));
                             let nl = l.mul(&Big::from_u64(nn as u64));
+                            if nl > mp::from_i64(4096) {
+                                // |x|^n is astronomically large and is not formed. The stated tolerance is the true power times
+                                // (n+1) / (|x| 2^F): it reaches the representable range only if that factor is about 1 or more
+                                if Big::from_u64(nn as u64 + 1) < xd.abs() {
+                                    fail(&mut ev, "result", &res, format!("Err: x^{} is not representable and the stated bound does not reach the type's range", n));
+                                }
+                                ev.class(OP_NAMES[op as usize]);
+                                return ev;
+                            }
                             let truth = mp::exp(&nl);
                             let truth = if xd.is_neg() && nn % 2 == 1 { truth.neg() } else { truth };
                             let ml = if l.is_pos() { l.mul(&Big::from_u64(nn as u64 - 1)) } else { Big::zero() };
@@ -965,7 +1090,9 @@ impl Engine for Math {
             _ => {
                 // SIN / COS / TAN with the f64 oracle
                 let x = sl.val(a).to_f64_approx() / 2f64.powi(sl.f as i32);
-                let margin = 2f64.powi(-36);
+                // oracle error: the operand rounded to f64 is off by <= 2^-45 (|x| < 256), libm by <= 1 ulp, the result's
+                // conversion by <= 2^-52 relative; sin/cos have slope <= 1, tan has slope 1 + t^2
+                let margin = 2f64.powi(-44);
                 let quad = x / std::f64::consts::FRAC_PI_2;
                 let near_quad = (quad - quad.round()).abs() < 2f64.powi(-10);
                 if near_quad {
@@ -982,6 +1109,7 @@ impl Engine for Math {
                             SIN | COS => {
                                 let t = if op == SIN { x.sin() } else { x.cos() };
                                 let b = 2f64.powi(-16) + margin;
+                                ev.score = ((got - t).abs() / b).max((got.abs() - 1.0) / b);
                                 if (got - t).abs() > b || got.abs() > 1.0 + b {
                                     fail(&mut ev, "result", &res, format!("{}({}) = {} within 2^-16 (got {}, error {:.3e})", OP_NAMES[op as usize], x, t, got, (got - t).abs()));
                                 }
@@ -1000,7 +1128,8 @@ impl Engine for Math {
                                 if t.abs() > 60.0 {
                                     ev.class("tan-skipped-guard-band");
                                 }
-                                let b = 2f64.powi(-14) * (1.0 + t * t) * (1.0 + 2f64.powi(-20)) + margin;
+                                let b = (2f64.powi(-14) + margin) * (1.0 + t * t);
+                                ev.score = (got - t).abs() / b;
                                 if (got - t).abs() > b {
                                     fail(&mut ev, "result", &res, format!("tan({}) = {} within 2^-14 (1 + tan^2) (got {}, error {:.3e} > {:.3e})", x, t, got, (got - t).abs(), b));
                                 }
@@ -1025,6 +1154,56 @@ impl Engine for Math {
     }
     fn pair_gens(&self) -> Vec<&'static str> {
         vec!["C12", "C13", "C14", "C15", "C16"]
+    }
+    fn climb_budget(&self, prop: &str, tier: Tier) -> (u64, usize) {
+        match (prop, tier) {
+            ("C13", Tier::Quick) => (40_000, 48),
+            ("C13", Tier::Thorough) => (2_000_000, 2_000),
+            ("C14", Tier::Quick) => (15_000, 32),
+            ("C14", Tier::Thorough) => (600_000, 1_000),
+            ("C15", Tier::Quick) => (15_000, 32),
+            ("C15", Tier::Thorough) => (600_000, 1_000),
+            ("C16", Tier::Quick) => (80_000, 96),
+            ("C16", Tier::Thorough) => (4_000_000, 4_000),
+            _ => (0, 0),
+        }
+    }
+    fn climb_stride(&self, prop: &str) -> u32 {
+        match prop {
+            "C15" | "C14" => 2,
+            _ => 1,
+        }
+    }
+    fn climb_coords(&self, _prop: &str, c: &Case) -> usize {
+        match c.op {
+            POWI => 0,
+            POW => 2,
+            _ => 1,
+        }
+    }
+    fn climb_move(&self, _prop: &str, c: &Case, coord: usize, up: bool, step: u128) -> Option<Case> {
+        let (sl, _, _) = pair_info(c.lay2 as usize % NPAIRS);
+        let cur = if coord == 0 { c.a } else { c.b } & sl.mask();
+        if step > i128::MAX as u128 {
+            return None;
+        }
+        let v = sl.val(cur);
+        let d = Big::from_u128(step);
+        let n = if up { v.add(&d) } else { v.sub(&d) };
+        if !sl.fits(&n) {
+            return None;
+        }
+        let mut out = c.clone();
+        if coord == 0 {
+            out.a = sl.wrap(&n);
+        } else {
+            out.b = sl.wrap(&n);
+        }
+        Some(out)
+    }
+    fn climb_bucket(&self, _prop: &str, c: &Case) -> u64 {
+        // one bucket per function and group of pairs (16 groups), so that starting points spread over types
+        (c.op as u64) << 8 | (c.lay2 as u64 % 16)
     }
     fn exec_raw(&self, _prop: &str, c: &Case) -> Outs {
         let (_, _, pk) = pair_info(c.lay2 as usize % NPAIRS);
@@ -1068,7 +1247,25 @@ impl Engine for Math {
                 return Err("math pair table selftest".into());
             }
         }
-        Ok(NPAIRS as u64 + 4)
+        // named constants against f64
+        let want = [std::f64::consts::E, std::f64::consts::PI, std::f64::consts::TAU, std::f64::consts::FRAC_PI_2, std::f64::consts::FRAC_PI_4, std::f64::consts::FRAC_PI_8,
+            std::f64::consts::FRAC_PI_3, std::f64::consts::FRAC_PI_6, std::f64::consts::FRAC_1_PI, std::f64::consts::FRAC_2_PI, 0.5 / std::f64::consts::PI,
+            std::f64::consts::LN_2, std::f64::consts::LN_10, std::f64::consts::LOG2_E, std::f64::consts::LOG2_10, std::f64::consts::LOG10_2, std::f64::consts::LOG10_E,
+            std::f64::consts::SQRT_2, std::f64::consts::FRAC_1_SQRT_2, 3f64.sqrt(), 2.0 / 3f64.sqrt(), std::f64::consts::FRAC_2_SQRT_PI, (-1f64).exp(), 2f64.exp(), (1.0 + 5f64.sqrt()) / 2.0, std::f64::consts::E.exp()];
+        let cs = named_constants();
+        if cs.len() != want.len() {
+            return Err("math named-constant table length".into());
+        }
+        for (c, w) in cs.iter().zip(want.iter()) {
+            if (mp::to_f64(c) - w).abs() > 1e-14 * w.abs().max(1.0) {
+                return Err(format!("math named constant selftest: {} vs {}", mp::to_f64(c), w));
+            }
+        }
+        // the I9F23 rendering of e is the module's constant E
+        if named_constant_operand(L::new(true, 32, 23), 0) != 22802600 {
+            return Err(format!("math named constant e at 23 bits: {}", named_constant_operand(L::new(true, 32, 23), 0)));
+        }
+        Ok(NPAIRS as u64 + 4 + want.len() as u64)
     }
 }
 
